@@ -75,5 +75,13 @@ void fsvn_thrown(void);
    in translated code a throw ends the path inside the __cxa_throw model) */
 #define FSV_MAY_THROW(call) do { if ((call) != 0) FSV_THROWN(); FSV_ASSERT(!fsv_expect_throw, "an error was expected but the call returned normally"); } while (0)
 
+/* pow as seen by the unit: the stub of rt_model.h under cbmc (consistent with the unit's own calls), libm natively */
+#if defined(__CPROVER__)
+double fsvx_pow(double, double);
+#define FSV_POW(x, y) fsvx_pow((x), (y))
+#else
+#define FSV_POW(x, y) pow((x), (y))
+#endif
+
 void fsv_harness(void);
 #endif
